@@ -13,6 +13,21 @@ pub fn init_math(interp: &mut Interpreter) -> Gc<JsObject> {
     let math_obj = interp.root_guard.alloc();
     math_obj.borrow_mut().prototype = Some(interp.object_prototype.clone());
 
+    // Object.prototype.toString.call(Math) is "[object Math]"
+    let tag_key = PropertyKey::Symbol(Box::new(crate::value::JsSymbol::new(
+        interp.well_known_symbols.to_string_tag,
+        Some(interp.intern("Symbol.toStringTag")),
+    )));
+    math_obj.borrow_mut().define_property(
+        tag_key,
+        crate::value::Property::with_attributes(
+            JsValue::String(crate::value::JsString::from("Math")),
+            false,
+            false,
+            true,
+        ),
+    );
+
     // Constants
     let pi_key = PropertyKey::String(interp.intern("PI"));
     let e_key = PropertyKey::String(interp.intern("E"));
